@@ -274,6 +274,11 @@ def main(argv):
                             {"op": "wrap_lines", "kind": kind, "line_hex": hx(line), "line": line.decode("utf-8"), "width": width, "keep": keep,
                              "delims": delims, "pieces_hex": [hx(p) for p in r[0]], "withheld_hex": [hx(d) for d in r[1]], "how": how})
 
+    # ---------------- thorough: the same cases through the ASan+UBSan build of the harness
+    if not quick and impl_ok:
+        step = max(1, len(lines) // 150000)
+        asan_lines(c, "hx_wrap", lines[::step], what="(wrap_lines)")
+
     # ---------------- the theorems' own boolean predicate (extracted check_wrap) on the implementation's pieces
     if impl_ok and drv is not None:
         idx = [i for i in range(n_valid) if out[1 + i].startswith("OK ")]
